@@ -401,6 +401,11 @@ class ConfEval:
         if fn == "str" and len(e.args) == 1:
             v = self.ev(e.args[0], env)
             return v if isinstance(v, str) else Opaque(syms_of(v), f"str({text_of(v)})")
+        if fn in ("any", "all") and len(e.args) == 1:
+            v = self.ev(e.args[0], env)
+            if isinstance(v, (list, tuple)):
+                ts = [self.truth(x, e) if not isinstance(x, bool) else x for x in v]
+                return any(ts) if fn == "any" else all(ts)
         if fn == "len" and len(e.args) == 1:
             v = self.ev(e.args[0], env)
             return len(v) if isinstance(v, (list, tuple, dict, str)) else Opaque(syms_of(v), "len")
@@ -547,6 +552,8 @@ class ConfEval:
         if isinstance(it, dict):
             return list(it.keys())
         if isinstance(it, (list, tuple)):
+            return list(it)
+        if isinstance(it, str):
             return list(it)
         if isinstance(it, (Sym, SymRest)):
             return [Sym(tuple(it.path) + ("*",))]  # one generic element
